@@ -2,6 +2,8 @@ package main
 
 import (
 	"fmt"
+	"os"
+	"path/filepath"
 	"runtime"
 	"sort"
 	"strings"
@@ -353,12 +355,59 @@ func checkC08(r *evid.Run) {
 			}
 		}
 	})
+	nonUTF8Extras(r, pool)
 	traceFsHistories(r, pool, fsTraceN(r), fsTraceMix{hostile: 0.05, long: 0.05, mkdir: 3, dry: 0, verify: 6, envw: 4}, []string{"C08_"})
 	// Verify under every option sequence (Options.tla): the last target and strictness win, nothing else matters
 	checkOptions(r, "rule", []int{0}, func(s *optState) bool { return s.Op == "verify" })
 	sessionPhase(r) // Session.tla: the calls this property owns, after every other call of the alphabet
 	r.Set("exhaustive", true)
 	r.Set("rule", "every forest up to the bound x directory states reached by Mkdir of the same tree and/or 0-2 environment steps (any node path or an extra entry at any depth, as file or directory) x {strict, non-strict} x {From-Markdown, From-Root (single root)}; the error text is parsed into the two documented lists and compared as sets; non-trivial = more than 3 entries in the directory")
+}
+
+// nonUTF8Extras: "arbitrary extra files and directories at any depth" includes entries whose names are not valid
+// UTF-8 (a Latin-1 file name on a UTF-8 system).  Such an entry is an extra entry like any other: non-strict
+// verification ignores it, strict verification lists it (and what lies beneath it).
+func nonUTF8Extras(r *evid.Run, pool *wproto.Pool) {
+	doc := "- a\n  - b\n"
+	for _, kind := range []string{"file", "directory"} {
+		for _, strict := range []bool{false, true} {
+			for _, massive := range []bool{false, true} {
+				j, err := newJail()
+				if err != nil {
+					r.Broken("jail: %v", err)
+					return
+				}
+				target := filepath.Join(j.root, "t")
+				os.MkdirAll(filepath.Join(target, "a", "b"), 0o755)
+				extra := filepath.Join(target, "a", "caf\xe9")
+				if kind == "file" {
+					extra += ".txt"
+					os.WriteFile(extra, nil, 0o644)
+				} else {
+					os.Mkdir(extra, 0o755)
+				}
+				rp := pool.Call(wproto.Req{Op: "verify", Route: "md", Doc: doc, Target: target, Strict: strict, Massive: massive}, 30*time.Second)
+				j.close()
+				r.Count("real_calls", 1)
+				name := fmt.Sprintf("verify-md/strict=%v:extra-%s-name-not-utf8", strict, kind)
+				what := fmt.Sprintf("VerifyFromMarkdown(%q, strict=%v, massive=%v) on a directory that holds a, a/b and the extra %s a/caf\\xe9", doc, strict, massive, kind)
+				rep := map[string]any{"doc": doc, "strict": strict, "massive": massive, "extra": kind, "err": rp.Err}
+				switch {
+				case rp.Class != "ok" && rp.Class != "err":
+					r.Mismatch(name+":"+rp.Class, what+": "+rp.Err, rep)
+				case !strict && rp.Class != "ok":
+					r.Mismatch(name+":false-alarm", fmt.Sprintf("%s: everything required exists but err=%q", what, rp.Err), rep)
+				case strict:
+					ex, miss := parseVerifyErr(rp.Err, j.root)
+					if rp.Class != "err" {
+						r.Mismatch(name+":difference-not-reported", what+": nil", rep)
+					} else if len(miss) != 0 || len(ex) != 1 || !strings.HasPrefix(ex[0], "t/a/caf") {
+						r.Mismatch(name+":lists-differ", fmt.Sprintf("%s: want extra=[t/a/caf\\xe9...], got missing=%v extra=%v (%q)", what, miss, ex, rp.Err), rep)
+					}
+				}
+			}
+		}
+	}
 }
 
 // lineBreakNames: a programmatic tree may carry names Markdown cannot spell - a line break inside a name is a valid file
